@@ -97,4 +97,4 @@ def num(v):
         try: return int(float(s))
         except Exception: return 0
 
-from checks import c14_c15_codecs, c01_c03_utf, c05_buffer, c06_c07_strpriv, c06_c08_string, c16_sstream, c12_numeric, c10_c11_format, c13_float   # noqa: E402 (registers units and jobs)
+from checks import c14_c15_codecs, c01_c03_utf, c05_buffer, c06_c07_strpriv, c06_c08_string, c16_sstream, c12_numeric, c10_c11_format, c13_float, c18_failure, c04_c20_static, c17_sinks, c03_wrappers   # noqa: E402 (registers units and jobs)
